@@ -205,7 +205,9 @@ def main(argv=None):
 
     cur_hashes = source_hashes(repo)
     if a.update_lock:
-        lock_all[prop] = {o["id"]: o["status"] for o in obligations}
+        # an obligation marked `volatile` belongs to a code site whose id follows the code (function / local names): it is checked and
+        # counted like any other but not locked -- the vacuity guard for such families is a package-level coverage obligation
+        lock_all[prop] = {o["id"]: o["status"] for o in obligations if not o.get("volatile")}
         lock_all.setdefault("_source_hashes", {})[prop] = cur_hashes
         with open("obligations.lock.json", "w") as fh:
             json.dump(lock_all, fh, indent=1, sort_keys=True)
